@@ -930,7 +930,7 @@ def _readUrl(url, fetcher=None, overrideEncoding=None, parentEncoding=None):
         fetcher = _defaultFetcher
 
     r = fetcher(url)
-    if r and len(r) == 2 and r[1] is not None:
+    if isinstance(r, (tuple, list)) and len(r) == 2 and r[1] is not None:
         httpEncoding, content = r
 
         if overrideEncoding:
@@ -970,7 +970,8 @@ def _readUrl(url, fetcher=None, overrideEncoding=None, parentEncoding=None):
                     # at least in GAE
                     decodedCssText = content.decode(encoding if encoding else 'utf-8')
 
-            except UnicodeDecodeError as e:
+            except (UnicodeDecodeError, LookupError) as e:
+                # cannot be decoded, or labelled with an unknown encoding
                 log.warn(e, neverraise=True)
                 decodedCssText = None
 
